@@ -14,6 +14,7 @@ def run_server(proto, world, client_fragments, ctx=None, bringup=False):
 
     def on_exchange(apdu):
         world.tag = vnet.real_threading.current_thread().name
+        world.serving = net.listening is not None      # the bring-up is over: the server listens
         sched.yield_point("exchange")
     world.on_exchange = on_exchange
     for frags in client_fragments:
